@@ -26,7 +26,7 @@ func init() {
 }
 
 type c10Op struct {
-	Kind string `json:"op"` // Publish | Subscribe | Unsubscribe
+	Kind string `json:"op"` // Publish | Subscribe | Unsubscribe | Map
 	Sub  int    `json:"sub,omitempty"`
 }
 
@@ -109,7 +109,10 @@ func genC10(t *simrt.Tape, tier string) Scenario {
 		n := 1 + t.Choose(maxOps)
 		var ops []c10Op
 		for k := 0; k < n; k++ {
-			switch t.ChooseW([]int{5, 1, 2}) {
+			switch t.ChooseW([]int{10, 2, 4, 1}) {
+			case 3:
+				// derive a mapped publisher from the shared origin at run time and subscribe to it
+				ops = append(ops, c10Op{Kind: "Map"})
 			case 0:
 				ops = append(ops, c10Op{Kind: "Publish"})
 			case 1:
@@ -231,6 +234,15 @@ func (sc *c10Scenario) Run(s *simrt.Sim) {
 					sc.pubs = append(sc.pubs, &c10Pub{op: po, val: v})
 				case "Subscribe":
 					newSub(name, p, false, "none", 0)
+				case "Map":
+					var mk *fpgo.PublisherDef[int]
+					h.Do(name, "Map", nil, func() (interface{}, error) {
+						mk = p.Map(func(v int) int { return v + c10MapOffset })
+						return nil, nil
+					})
+					if mk != nil {
+						newSub(name, mk, true, "none", 0)
+					}
 				case "Unsubscribe":
 					if op.Sub == 0 && val%2 == 1 {
 						// a subscription of another publisher / a nil pointer: must be a no-op
@@ -313,7 +325,10 @@ func (sc *c10Scenario) Check(res *simrt.Result) []Violation {
 				}
 			}
 			must := cs.subOp.Ret < P.op.Inv && !cs.placeholder
-			mustNot := cs.subOp.Inv > P.op.Ret || cs.placeholder
+			// (with a handler the forwarding subscription of a Map-derived publisher runs later, on the
+			// handler, and the derived publisher takes its own snapshot then: a subscription made on it
+			// after Publish returned may legitimately still see the value)
+			mustNot := (cs.subOp.Inv > P.op.Ret && !(cs.derived && sc.Handler)) || cs.placeholder
 			for _, u := range cs.unsubs {
 				if u.Inv < P.op.Ret {
 					must = false
